@@ -139,13 +139,19 @@ def run(ctx):
     for d in ([100, 511, 512, 513, 5000, 200000] if thorough else [511, 512, 513, 100000]):
         for opener in (b"[", b'{"a":'):
             bombs.append("parse " + (opener * d).hex())
+    # history independence: the same text must get the same answer before and after rejected over-deep inputs
+    # (the parser keeps a per-thread depth counter between calls)
+    probes = ["parse " + (b"[" * d + b"1" + b"]" * d).hex() for d in (1, 100, 500, 505, 508, 510, 511, 512, 513)]
+    probes += cases[:150]
     with ctx.timer("model"):
         mout = C.run_driver("json", cases)
     with ctx.timer("impl"):
-        iout, restarts = C.run_harness_resilient(exe, [], cases + bombs, timeout=1200)
+        iout, restarts = C.run_harness_resilient(exe, [], cases + probes + bombs + probes, timeout=1200)
     ctx.cov["harness_restarts"] = restarts
-    bomb_out = iout[len(cases):]
-    iout = iout[:len(cases)]
+    n0 = len(cases)
+    pre, bomb_out, post = iout[n0:n0 + len(probes)], iout[n0 + len(probes):n0 + len(probes) + len(bombs)], iout[n0 + len(probes) + len(bombs):]
+    iout = iout[:n0]
+    hist_bad = [(l, a, b_) for l, a, b_ in zip(probes, pre, post) if a != b_]
     extra = []
 
     def canon_impl(t, line):
@@ -176,6 +182,13 @@ def run(ctx):
         if not (o.startswith("error:runtime_error") or o.startswith("ok")):
             found += 1
             ctx.violation("input", {"mode": "json", "case": line[:80] + "...", "nesting": len(line) // 2, "observed": o[:300], "expected": "a value or an exception, never a crash"})
+    ctx.count("evaluations", 2 * len(probes))
+    ctx.count("history_probe_disagreements", len(hist_bad))
+    for l, a_, b_ in hist_bad[:3]:
+        found += 1
+        ctx.violation("history", {"mode": "json", "history": "%d earlier texts, then %d rejected over-deep texts, then the same text again" % (n0, len(bombs)),
+                                  "case": l[:120] + ("..." if len(l) > 120 else ""), "answer_before": a_[:200], "answer_after": b_[:200],
+                                  "expected": "from_json of a text does not depend on what was parsed (and rejected) before"})
     ctx.cov["nesting_bombs"] = [(len(l.split()[1]) // 2, o[:40]) for l, o in zip(bombs, bomb_out)]
     ctx.cov["rule"] = ("generated value trees (depth <= 4; strings over all byte values) printed as JSON with varied whitespace: from_json must equal the tree, "
                        "to_json/from_json must round-trip and be idempotent, and model = implementation on value and dump text; mutated/truncated/arbitrary "
